@@ -1,13 +1,19 @@
 import PegVerif.Model.Sem
 import PegVerif.Proofs.CodeLemmas
 import PegVerif.Proofs.CompileLemmas
+import PegVerif.Proofs.LeadDefs
+import PegVerif.Proofs.SwitchCode
 /-
   Definitions for the refinement theorem R ("the emitted code of an expression does what the PEG
-  semantics says"), for the emission with AST support and without the `-switch` rewrite, memoisation
-  disabled (the memo table is shown to stay empty).
+  semantics says"), for the emission with AST support — including the `-switch` nodes
+  (`TypeUnorderedAlternate`, see `Expr.fineS`, `Lead` in LeadDefs.lean and RefineSwitch.lean);
+  memoisation may be on or off.
 
   `Good e p res evs` is stated backwards along the continuation (`Steps`), so the proof needs no
   fuel arithmetic: whatever the machine returns after the code of `e`, it returns from before it.
+  It quantifies over the `parentDetect`/`parentMultipleKey` flags of `compile` (set inside a `case`
+  of a switch), under the hypothesis `Lead` that the terminal tests elided because of them would
+  have passed.
 -/
 namespace PegVerif
 
@@ -48,8 +54,9 @@ theorem treeAdd_live (tree : List Token) (t : Token) (i : Nat) (h : i ≤ tree.l
         | succ k => simp
 
 mutual
-  /-- The fragment R covers: no `TypeString`, no `-switch` node, terminals below the end symbol,
-      and every referenced rule has an emitted function in `P`. -/
+  /-- The `-switch`-free fragment (used by the `-noast` development; R itself covers `Expr.fineS`):
+      no `TypeString`, no `-switch` node, terminals below the end symbol, and every referenced rule
+      has an emitted function in `P`. -/
   def Expr.fine (P : Program) : Expr → Prop
     | .dot => True
     | .chr c => c ≠ END
@@ -76,6 +83,82 @@ mutual
     | e :: es => e.fine P ∧ fineL P es
 end
 
+mutual
+  /-- The fragment R covers under `-switch`: as `Expr.fine`, and a `TypeUnorderedAlternate` whose
+      cases are in the fragment and whose elided terminal tests are justified by the case keys
+      (`casesLeadOK`).  (`Expr.fine` itself is kept unchanged: the `-noast` development uses it.) -/
+  def Expr.fineS (P : Program) : Expr → Prop
+    | .dot => True
+    | .chr c => c ≠ END
+    | .rng _ hi => hi < END
+    | .str _ => False
+    | .name n => (P.find n).isSome = true
+    | .inl _ e => e.fineS P
+    | .pred _ => True
+    | .stmt _ => True
+    | .act _ => True
+    | .seq es => fineSL P es
+    | .alt es => fineSL P es
+    | .ualt ks es => es ≠ [] ∧ fineSL P es ∧ casesLeadOK ks es = true
+    | .peekFor e => e.fineS P
+    | .peekNot e => e.fineS P
+    | .query e => e.fineS P
+    | .star e => e.fineS P
+    | .plus e => e.fineS P
+    | .push e _ => e.fineS P
+    | .ipush e _ => e.fineS P
+    | .nil => True
+  def fineSL (P : Program) : List Expr → Prop
+    | [] => True
+    | e :: es => e.fineS P ∧ fineSL P es
+end
+
+mutual
+  theorem Expr.fine.fineS {P : Program} : ∀ {e : Expr}, e.fine P → e.fineS P
+    | .dot, _ => by simp only [Expr.fineS]
+    | .chr _, h => by simpa only [Expr.fineS, Expr.fine] using h
+    | .rng _ _, h => by simpa only [Expr.fineS, Expr.fine] using h
+    | .str _, h => by simp only [Expr.fine] at h
+    | .name _, h => by simpa only [Expr.fineS, Expr.fine] using h
+    | .inl _ e, h => by
+      simp only [Expr.fine] at h; simp only [Expr.fineS]; exact Expr.fine.fineS h
+    | .pred _, _ => by simp only [Expr.fineS]
+    | .stmt _, _ => by simp only [Expr.fineS]
+    | .act _, _ => by simp only [Expr.fineS]
+    | .seq es, h => by
+      simp only [Expr.fine] at h; simp only [Expr.fineS]; exact fineL.fineSL h
+    | .alt es, h => by
+      simp only [Expr.fine] at h; simp only [Expr.fineS]; exact fineL.fineSL h
+    | .ualt _ _, h => by simp only [Expr.fine] at h
+    | .peekFor e, h => by
+      simp only [Expr.fine] at h; simp only [Expr.fineS]; exact Expr.fine.fineS h
+    | .peekNot e, h => by
+      simp only [Expr.fine] at h; simp only [Expr.fineS]; exact Expr.fine.fineS h
+    | .query e, h => by
+      simp only [Expr.fine] at h; simp only [Expr.fineS]; exact Expr.fine.fineS h
+    | .star e, h => by
+      simp only [Expr.fine] at h; simp only [Expr.fineS]; exact Expr.fine.fineS h
+    | .plus e, h => by
+      simp only [Expr.fine] at h; simp only [Expr.fineS]; exact Expr.fine.fineS h
+    | .push e _, h => by
+      simp only [Expr.fine] at h; simp only [Expr.fineS]; exact Expr.fine.fineS h
+    | .ipush e _, h => by
+      simp only [Expr.fine] at h; simp only [Expr.fineS]; exact Expr.fine.fineS h
+    | .nil, _ => by simp only [Expr.fineS]
+  theorem fineL.fineSL {P : Program} : ∀ {es : List Expr}, fineL P es → fineSL P es
+    | [], _ => by simp only [fineSL]
+    | e :: es, h => by
+      simp only [fineL] at h; simp only [fineSL]; exact ⟨Expr.fine.fineS h.1, fineL.fineSL h.2⟩
+end
+
+theorem fineSL_mem {P : Program} : ∀ {es : List Expr}, fineSL P es → ∀ e ∈ es, e.fineS P
+  | [], _, e, he => by cases he
+  | a :: as, h, e, he => by
+    simp only [fineSL] at h
+    cases he with
+    | head => exact h.1
+    | tail _ he' => exact fineSL_mem h.2 e he'
+
 /-- The invariant of the memoisation table, kept abstract in the case analyses of R: a predicate
     on the table and on the end of the furthest token seen so far, monotone in the latter.  (The
     concrete invariant `MemoOK` — every entry agrees with the semantics and every token attempted
@@ -97,13 +180,14 @@ structure World (P : Program) (cfg : Cfg) (env : CEnv) (G : Grammar) (inp : List
   /-- Every emitted function is the emission of its rule's body. -/
   rules : ∀ n cr, P.find n = some cr → ∃ (r : Rule) (b : Expr) (kr : Nat) (stb : CSt),
     G.body n = some b ∧ cr = (ruleFunc env r b kr stb).1 ∧ kr < stb.label ∧ Uniq cr ∧
-    (∀ l ∈ jumps cr, env.used l = true) ∧ b.fine P ∧ r.id = G.idOf n ∧ (∃ e, b = .ipush e n)
+    (∀ l ∈ jumps cr, env.used l = true) ∧ b.fineS P ∧ r.id = G.idOf n ∧ (∃ e, b = .ipush e n)
   /-- Memo keys identify rules. -/
   idInj : ∀ n1 n2, (P.find n1).isSome = true → (P.find n2).isSome = true → G.idOf n1 = G.idOf n2 → n1 = n2
 
 /-- Preconditions on the point of the code and the state where an expression starts. -/
 structure Pre [MInv] (env : CEnv) (inp : List Sym) (code : Code) (s : St) (p : Nat) : Prop where
   uniq : Uniq code
+  suniq : SUniq code
   used : ∀ l ∈ jumps code, env.used l = true
   pos : s.pos = p
   ple : p ≤ inp.length
@@ -135,33 +219,39 @@ structure Failed [MInv] (lbl : Nat) (s : St) (f : Frame) (s'' : St) (f'' : Frame
 section
 variable [MInv] (P : Program) (cfg : Cfg) (env : CEnv) (inp : List Sym)
 
-/-- The emitted code of `e` refines the outcome `res` of the PEG semantics at `p`. -/
+/-- The emitted code of `e` refines the outcome `res` of the PEG semantics at `p` — for every
+    setting of the `parentDetect`/`parentMultipleKey` flags under which the elided terminal tests
+    would have passed (`Lead`). -/
 def Good (e : Expr) (p : Nat) (res : Res) (evs : List Token) : Prop :=
-  ∀ (ko : Nat) (st : CSt) (code : Code) (pc : Nat) (s : St) (f : Frame),
-    CodeAt code pc (compile env e ko false false st).code → Pre env inp code s p →
+  ∀ (ko : Nat) (pd pmk : Bool) (st : CSt) (code : Code) (pc : Nat) (s : St) (f : Frame),
+    CodeAt code pc (compile env e ko pd pmk st).code → Pre env inp code s p →
+    Lead inp p pd pmk e →
     match res with
     | .ok p' forest => ∃ s' f', Succ st.label s f s' f' p' (postorderL forest) evs ∧
-        Steps P cfg inp code pc s f (pc + (compile env e ko false false st).code.length) s' f'
+        Steps P cfg inp code pc s f (pc + (compile env e ko pd pmk st).code.length) s' f'
     | .fail => ∃ s'' f'', Failed st.label s f s'' f'' evs ∧
-        ko ∈ jumps (compile env e ko false false st).code ∧
+        ko ∈ jumps (compile env e ko pd pmk st).code ∧
         ∀ pcko, labelPos code ko = some pcko → Steps P cfg inp code pc s f pcko s'' f''
 
 /-- Tail of an ordered choice: `compileAlt es ok ko` followed by the `}` and the `ok` label; slot
     `ok` holds the choice's entry state. Both exits (fall through / `goto ok`) reach `pcAfter`. -/
 def GoodAlt (es : List Expr) (p : Nat) (res : Res) (evs : List Token) : Prop :=
-  ∀ (ok ko : Nat) (st : CSt) (code : Code) (pc : Nat) (s : St) (f : Frame),
-    CodeAt code pc ((compileAlt env es ok ko false false st).code ++ [Instr.be] ++ env.lbl ok) →
+  ∀ (ok ko : Nat) (pd pmk : Bool) (st : CSt) (code : Code) (pc : Nat) (s : St) (f : Frame),
+    CodeAt code pc ((compileAlt env es ok ko pd pmk st).code ++ [Instr.be] ++ env.lbl ok) →
     Pre env inp code s p → ok < st.label → f ok = (p, s.ti) →
+    LeadL inp p pd pmk es →
     match res with
     | .ok p' forest => ∃ s' f', Succ st.label s f s' f' p' (postorderL forest) evs ∧
         Steps P cfg inp code pc s f
-          (pc + (compileAlt env es ok ko false false st).code.length + 1 + (env.lbl ok).length) s' f'
+          (pc + (compileAlt env es ok ko pd pmk st).code.length + 1 + (env.lbl ok).length) s' f'
     | .fail => ∃ s'' f'', Failed st.label s f s'' f'' evs ∧
-        ko ∈ jumps (compileAlt env es ok ko false false st).code ∧
+        ko ∈ jumps (compileAlt env es ok ko pd pmk st).code ∧
         ∀ pcko, labelPos code ko = some pcko → Steps P cfg inp code pc s f pcko s'' f''
 
 /-- The loop of `e*` (also the second half of `e+`): labels `again`/`out` allocated anywhere below
-    the body's labels. -/
+    the body's labels.  The body is compiled without `parentDetect`: `e+` never hands the flags
+    down, and `Lead (.star e)` excludes `parentDetect` (then `parentMultipleKey` is irrelevant,
+    `compile_pd_false`). -/
 def loopCode (e : Expr) (again out : Nat) (stb : CSt) : Code :=
   env.lbl again ++ [Instr.bb, Instr.save out] ++ (compile env e out false false stb).code ++
     [Instr.goto again] ++ env.lbl out ++ [Instr.restore out, Instr.be]
